@@ -7,31 +7,128 @@
 (C) the real Fandango.fuzz loop under deviation bounding around two base executions.
 Oracle: RefGrammar derivation check + membership of the serialisation, on every tree produced
 anywhere (population members, operator results, emissions)."""
+import itertools
+
 from mc import evo, gen_sweep
-from mc.common import Ctx
+from mc.common import Ctx, pmap_tagged
 
 LEVEL = "model_checking"
 PID = "C01"
+
+
+# ---- (D) generation after parse requests on the same object: generators are expanded by PARSING their output
+# as their symbol, so what a parse request leaves behind in the grammar object is an input of generation
+def d_specs() -> dict:
+    from mc.refgrammar import Alt, Lit, NT, Plus, RefGrammar, Seq
+    D = Alt((Lit("1"), Lit("2"), Lit("4")))
+    return {
+        "same_text_two_symbols": (RefGrammar({"<start>": Seq((NT("<year>"), Lit("-"), NT("<code>"))), "<year>": Plus(NT("<d>")),
+                                              "<code>": Seq((NT("<h>"), NT("<h>"))), "<h>": Alt((NT("<d>"), Lit("a"))), "<d>": D},
+                                             generators={"<year>": '"42"', "<code>": '"42"'}), ["42", "4", "42-42"]),
+        "generator_and_free_symbol": (RefGrammar({"<start>": Seq((NT("<k>"), Lit(":"), NT("<v>"), Lit(":"), NT("<w>"))), "<k>": Plus(NT("<d>")),
+                                                  "<v>": Seq((NT("<d>"), NT("<d>"))), "<w>": Plus(Alt((NT("<d>"), Lit("x")))), "<d>": D},
+                                                 generators={"<k>": '"12"', "<w>": '"12"'}), ["12", "1", "12:12:12"]),
+    }
+
+
+def d_requests(name: str) -> list:
+    g, words = d_specs()[name]
+    out = [None]
+    for sym in g.rules:
+        for w in words:
+            out += [("forest", sym, w), ("first", sym, w)]
+    for w in words:
+        out.append(("api", "<start>", w))
+    return out
+
+
+def d_work(task):
+    from mc.explore import dfs
+    from mc.fd import build, has_helper_symbols, snap
+    from mc.refgrammar import TreeChecker
+    from mc.seams import max_repetitions, random_seam
+    name, hist = task
+    g, _ = d_specs()[name]
+    fan = g.fan()
+    tc = TreeChecker(g)
+    out = {"runs": 0, "trees": 0, "viol": []}
+    for start in g.rules:
+        def body(ch, start=start):
+            spec = build(fan)
+            for req in hist:
+                if req is None:
+                    continue
+                kind, sym, w = req
+                try:
+                    if kind == "forest":
+                        list(spec.grammar.parse_forest(w, start=sym))
+                    elif kind == "first":
+                        spec.grammar.parse(w, start=sym)
+                    else:
+                        list(spec.parse(w))
+                except Exception:
+                    pass
+            with random_seam(ch), max_repetitions(2):
+                try:
+                    return spec.grammar.fuzz(start, 20)
+                except Exception as e:  # a generator whose output does not fit raises: nothing is produced
+                    return ("raises", type(e).__name__)
+        for choices, tree, _ in dfs(body, bound=10**6, max_runs=40):
+            if choices is None:
+                break
+            out["runs"] += 1
+            if isinstance(tree, tuple):
+                continue
+            out["trees"] += 1
+            s = snap(tree)
+            why = has_helper_symbols(s)
+            why = f"helper symbol {why}" if why else tc.ok(s, start)
+            if why is None and s[1] != start:
+                why = f"root is {s[1]}, requested {start}"
+            if why:
+                out["viol"].append({"kind": "generated_tree_not_a_derivation", "spec": name, "grammar": fan, "requests_before": [list(r) for r in hist if r], "start": start,
+                                    "why": why, "tree": repr(s)[:300], "sig": f"after_parse:{hist[-1][0] if hist and hist[-1] else 'none'}:not_a_derivation"})
+    return out
+
+
+def part_d(ctx: Ctx) -> dict:
+    tasks = []
+    for name in d_specs():
+        reqs = d_requests(name)
+        tasks += [(name, (r,)) for r in reqs]
+        if not ctx.quick:
+            tasks += [(name, (a, b)) for a, b in itertools.product(reqs[1:], repeat=2)]
+    res = pmap_tagged(d_work, tasks, chunk=4)
+    agg = {"histories": len(tasks), "runs": sum(r["runs"] for r in res), "trees": sum(r["trees"] for r in res)}
+    for r in res:
+        for v in r["viol"]:
+            ctx.violation(v)
+    return agg
 
 
 def run(ctx: Ctx, which=None) -> None:
     which = which or {PID}
     names = list(evo.cat())
     a = gen_sweep.sweep(ctx, which) if PID == "C01" and ctx.pid == "C01" else None
-    b = evo.closure_explore(ctx, names, which, depth=1 if ctx.quick else 2, frontier_cap=10 if ctx.quick else 24, run_cap=120 if ctx.quick else 400)
+    b = evo.closure_explore(ctx, names, which, depth=2, frontier_cap=10 if ctx.quick else 24, run_cap=120 if ctx.quick else 400)
     ctx.log(f"closure: {b}")
     c = evo.loop_explore(ctx, names, which, bound=1 if ctx.quick else 2, cap=3000 if ctx.quick else 40000)
     ctx.log(f"loop: { {k: v for k, v in c.items() if k != 'choice_points_default'} }")
-    states = b["trees"] + c["executions"] + (a["distinct_trees"] if a else 0)
+    d = part_d(ctx) if ctx.pid == "C01" else {"histories": 0, "runs": 0, "trees": 0}
+    ctx.log(f"after parse requests: {d}")
+    states = b["trees"] + c["executions"] + (a["distinct_trees"] if a else 0) + d["histories"]
     transitions = b["transitions"] + b["executions"] + c["executions"] + (a["runs"] if a else 0)
     samples = [{"engine": "loop", "spec": "computed_rep", "policy": "rot", "prefix": [0, 0, 1]},
                {"engine": "closure", "spec": "equality", "builder": ["repair", [], ["fuzz", [0, 1]], None]}] + (a["samples"][:3] if a else [])
     ctx.coverage.update(
         states=states, transitions=transitions, traces_validated_against_impl=transitions, samples=samples,
         exhaustive=False,
+        generation_after_parse_requests=d,
         generator_choice_trees=({k: v for k, v in a.items() if k != "samples"} if a else None), operator_closure=b, loop=c,
         rule="(A) state = distinct tree per (grammar, budget), transition = one complete execution of Grammar.fuzz under one resolution of its random decisions; "
              "(B) state = distinct tree reachable through the operators, transition = one operator application under one resolution; "
+             "(D) state = history of <= 1 (thorough 2) parse requests (whole forest / first tree / API parse, every symbol as start, three words) on a spec whose generators "
+             "return text that also parses as another symbol, followed by Grammar.fuzz from every symbol under every resolution of its random decisions; "
              "(C) state = one execution of Fandango.fuzz(population 3, 2 generations, 2 solutions) within the deviation bound of a base resolution (policies zero and rot)",
     )
     if a and a["capped_pairs"]:
